@@ -97,7 +97,10 @@ def oracle(ctx, seeds=None):
             res.fail(name + ':array-raised', str(arr), dict(limiter=name))
         else:
             sc = np.array([float(f(a, b)) for a, b in pairs[:200]])
-            bad = np.nonzero(~((arr == sc) | (np.isnan(arr) & np.isnan(sc))))[0]
+            # element-wise semantics: same value as the scalar call up to a few ulps (numpy evaluates a**2 on
+            # python floats through pow() and on arrays through multiplication: they may differ in the last bit)
+            tolv = 8 * EPS * np.maximum(np.abs(A), np.abs(B))
+            bad = np.nonzero(~((np.abs(arr - sc) <= tolv) | (np.isnan(arr) & np.isnan(sc))))[0]
             if np.shape(arr) != A.shape or len(bad):
                 i = int(bad[0]) if len(bad) else 0
                 res.fail(name + ':not-elementwise', "array result differs from scalar at %r" % (pairs[i],),
